@@ -3,6 +3,7 @@
 cd /verif
 for d in seeded/*/; do
   id=$(basename $d); prop=${id%%-*}
+  if grep -q "\"status\": \"obsolete" /verif/$d/meta.json 2>/dev/null; then echo "$id OBSOLETE (see meta.json)"; continue; fi
   cd /repo && git apply /verif/$d/patch.diff 2>/dev/null || { echo "$id PATCH-DOES-NOT-APPLY"; cd /verif; continue; }
   out=$(cd /verif && timeout 300 /venv/bin/python -m wverif check $prop --no-write 2>&1)
   code=$?
